@@ -67,11 +67,11 @@ type c20Case struct {
 	What    string   `json:"what,omitempty"`
 }
 
-func localStore(dir string, unc, skip bool) (desync.LocalStore, error) {
+func lsLocalStore(dir string, unc, skip bool) (desync.LocalStore, error) {
 	return desync.NewLocalStore(dir, desync.StoreOptions{Uncompressed: unc, SkipVerify: skip})
 }
 
-func freshDir(work, name string) (string, error) {
+func lsFreshDir(work, name string) (string, error) {
 	d := filepath.Join(work, name)
 	os.RemoveAll(d)
 	return d, os.MkdirAll(d, 0755)
@@ -82,11 +82,11 @@ func freshDir(work, name string) (string, error) {
 func c20Layout(a vh.Args, o *vh.Oracle, r *vh.Result, c *c20Case) error {
 	desync.Digest = desync.SHA256{}
 	data := vh.UnHex(c.DataHex)
-	dir, err := freshDir(a.Work, "layout")
+	dir, err := lsFreshDir(a.Work, "layout")
 	if err != nil {
 		return err
 	}
-	s, err := localStore(dir, c.Unc, false)
+	s, err := lsLocalStore(dir, c.Unc, false)
 	if err != nil {
 		return err
 	}
@@ -164,7 +164,7 @@ func c20Layout(a vh.Args, o *vh.Oracle, r *vh.Result, c *c20Case) error {
 		return nil
 	}
 	// correspondence: name, and (small data) the whole tree after store_chunk
-	nm, err := o.Call("c20.name", b01(c.Unc), c.IDHex)
+	nm, err := o.Call("c20.name", lsB01(c.Unc), c.IDHex)
 	if err != nil {
 		return err
 	}
@@ -175,9 +175,9 @@ func c20Layout(a vh.Args, o *vh.Oracle, r *vh.Result, c *c20Case) error {
 	if len(data) <= 4096 && len(files) == 1 {
 		zt := "-"
 		if !c.Unc {
-			zt = hx(data) + "=" + hx(files[0].Data)
+			zt = lsHx(data) + "=" + lsHx(files[0].Data)
 		}
-		ans, err := o.Call("c20.store", b01(c.Unc), hx([]byte("s")), c.IDHex, hx(data), "2e31,2e32", encodeTree("s", nil), zt)
+		ans, err := o.Call("c20.store", lsB01(c.Unc), lsHx([]byte("s")), c.IDHex, lsHx(data), "2e31,2e32", encodeTree("s", nil), zt)
 		if err != nil {
 			return err
 		}
@@ -193,7 +193,7 @@ func c20Layout(a vh.Args, o *vh.Oracle, r *vh.Result, c *c20Case) error {
 	return nil
 }
 
-func b01(b bool) string {
+func lsB01(b bool) string {
 	if b {
 		return "1"
 	}
@@ -209,7 +209,7 @@ type opResult struct {
 }
 
 func c20Apply(dir string, op c20Op, data []byte) (opResult, error) {
-	s, err := localStore(dir, op.Unc, op.Skip)
+	s, err := lsLocalStore(dir, op.Unc, op.Skip)
 	if err != nil {
 		return opResult{}, err
 	}
@@ -219,7 +219,7 @@ func c20Apply(dir string, op c20Op, data []byte) (opResult, error) {
 	switch op.Op {
 	case "get":
 		ch, err := s.GetChunk(id)
-		res := opResult{Class: errClass(err)}
+		res := opResult{Class: lsErrClass(err)}
 		if ci, ok := err.(desync.ChunkInvalid); ok {
 			res.Sum = ci.Sum.String()
 		}
@@ -246,7 +246,7 @@ func c20Apply(dir string, op c20Op, data []byte) (opResult, error) {
 		return opResult{Class: cl}, nil
 	case "remove":
 		err := s.RemoveChunk(id)
-		cl := errClass(err)
+		cl := lsErrClass(err)
 		if cl == "other" {
 			cl = "err"
 		}
@@ -286,9 +286,9 @@ func decompTable(ents []fsEnt) string {
 		seen[string(e.Data)] = true
 		p, err := desync.Decompress(nil, e.Data)
 		if err != nil {
-			parts = append(parts, hx(e.Data)+"=!")
+			parts = append(parts, lsHx(e.Data)+"=!")
 		} else {
-			parts = append(parts, hx(e.Data)+"="+hx(p))
+			parts = append(parts, lsHx(e.Data)+"="+lsHx(p))
 		}
 	}
 	if len(parts) == 0 {
@@ -299,7 +299,7 @@ func decompTable(ents []fsEnt) string {
 
 func c20Coexist(a vh.Args, o *vh.Oracle, r *vh.Result, c *c20Case) error {
 	desync.Digest = desync.SHA256{}
-	root, err := freshDir(a.Work, "co")
+	root, err := lsFreshDir(a.Work, "co")
 	if err != nil {
 		return err
 	}
@@ -319,7 +319,7 @@ func c20Coexist(a vh.Args, o *vh.Oracle, r *vh.Result, c *c20Case) error {
 		if err != nil {
 			return err
 		}
-		twin, err := freshDir(a.Work, "twin")
+		twin, err := lsFreshDir(a.Work, "twin")
 		if err != nil {
 			return err
 		}
@@ -351,7 +351,7 @@ func c20Coexist(a vh.Args, o *vh.Oracle, r *vh.Result, c *c20Case) error {
 		}
 		// predicate 2: round trip
 		if op.Op == "store" && res.Class == "ok" {
-			s, _ := localStore(root, op.Unc, false)
+			s, _ := lsLocalStore(root, op.Unc, false)
 			var id desync.ChunkID
 			copy(id[:], sum[:])
 			ch, gerr := s.GetChunk(id)
@@ -374,10 +374,10 @@ func c20Coexist(a vh.Args, o *vh.Oracle, r *vh.Result, c *c20Case) error {
 		}
 		// correspondence
 		tree := encodeTree("s", pre)
-		base := hx([]byte("s"))
+		base := lsHx([]byte("s"))
 		switch op.Op {
 		case "get":
-			ans, err := o.Call("c20.get", b01(op.Unc), b01(op.Skip), base, idh, tree, decompTable(pre))
+			ans, err := o.Call("c20.get", lsB01(op.Unc), lsB01(op.Skip), base, idh, tree, decompTable(pre))
 			if err != nil {
 				return err
 			}
@@ -391,11 +391,11 @@ func c20Coexist(a vh.Args, o *vh.Oracle, r *vh.Result, c *c20Case) error {
 				fail(i, "corr", "corr:C20/get-class", fmt.Sprintf("model %s, implementation %s", ans, res.Class))
 			} else if mc == "invalid" && f[1] != res.Sum {
 				fail(i, "corr", "corr:C20/get-sum", fmt.Sprintf("model sum %s, implementation %s", f[1], res.Sum))
-			} else if mc == "ok" && !bytes.Equal(unhx(f[2]), res.Data) {
+			} else if mc == "ok" && !bytes.Equal(lsUnhx(f[2]), res.Data) {
 				fail(i, "corr", "corr:C20/get-data", "plain data differs")
 			}
 		case "has":
-			ans, err := o.Call("c20.has", b01(op.Unc), base, idh, tree)
+			ans, err := o.Call("c20.has", lsB01(op.Unc), base, idh, tree)
 			if err != nil {
 				return err
 			}
@@ -407,9 +407,9 @@ func c20Coexist(a vh.Args, o *vh.Oracle, r *vh.Result, c *c20Case) error {
 			zt := "-"
 			if !op.Unc {
 				cb, _ := desync.Compress(data)
-				zt = hx(data) + "=" + hx(cb)
+				zt = lsHx(data) + "=" + lsHx(cb)
 			}
-			ans, err := o.Call("c20.store", b01(op.Unc), base, idh, hx(data), "2e31,2e32,2e33,2e34", tree, zt)
+			ans, err := o.Call("c20.store", lsB01(op.Unc), base, idh, lsHx(data), "2e31,2e32,2e33,2e34", tree, zt)
 			if err != nil {
 				return err
 			}
@@ -426,7 +426,7 @@ func c20Coexist(a vh.Args, o *vh.Oracle, r *vh.Result, c *c20Case) error {
 				fail(i, "corr", "corr:C20/store-tree", "tree after StoreChunk differs from the model: "+d)
 			}
 		case "remove":
-			ans, err := o.Call("c20.remove", b01(op.Unc), base, idh, tree)
+			ans, err := o.Call("c20.remove", lsB01(op.Unc), base, idh, tree)
 			if err != nil {
 				return err
 			}
@@ -459,7 +459,7 @@ func c20GenCoexist(rng *vh.Rand) *c20Case {
 	add := func(p, kind string, data []byte) { c.Tree = append(c.Tree, fsEnt{Path: p, Kind: kind, Data: data}) }
 	prefixes := map[string]int{}
 	for i := 0; i < k; i++ {
-		prefixes[sha256Hex(vh.UnHex(c.Chunks[i]))[:4]]++
+		prefixes[lsSha256Hex(vh.UnHex(c.Chunks[i]))[:4]]++
 	}
 	for i := 0; i < k; i++ {
 		data := vh.UnHex(c.Chunks[i])
@@ -605,7 +605,7 @@ func c20Fixtures(a vh.Args, r *vh.Result) {
 		if err != nil {
 			continue
 		}
-		s, err := localStore(st, false, false)
+		s, err := lsLocalStore(st, false, false)
 		if err != nil {
 			continue
 		}
@@ -679,7 +679,7 @@ func c20Interop(a vh.Args, r *vh.Result) {
 	}
 	seed := fmt.Sprint(a.Seed)
 	for _, w := range []struct{ name, bin string }{{"klauspost", kp}, {"libzstd", dd}} {
-		dir, _ := freshDir(a.Work, "interop-"+w.name)
+		dir, _ := lsFreshDir(a.Work, "interop-"+w.name)
 		wout, err := run(w.bin, "write", dir, seed, "40")
 		if err != nil {
 			r.Fail("predicate", "interop/write-"+w.name, "helper write failed: "+wout, nil)
